@@ -284,6 +284,7 @@ def drain(world, horizon=90.0, max_steps=400):
     t_end = w.clock + horizon
     steps = 0
     waited_for_dpd = 0
+    w.drain_retransmit_ticks = 0
     while steps < max_steps:
         steps += 1
         if w.net:
@@ -301,6 +302,7 @@ def drain(world, horizon=90.0, max_steps=400):
             return w, ('quiescent' if not pend else 'queued-events-never-processed')
         if dl > t_end:
             return w, 'horizon'
+        w.drain_retransmit_ticks += 1
         w.step(('tick', max(0.0, dl - w.clock) + 0.01))
     return w, 'max_steps'
 
